@@ -39,8 +39,12 @@ Record target := { t_a : assignment; t_K : nat -> bool;
 Definition value (t : target) : Z := score_of courses parts (t_a t).
 Definition covers (nd : node) (t : target) : Prop := Covers courses nd (t_K t).
 
-(* what is still assumed in this spike: no panic / overflow outcome, and the score range *)
-Hypothesis Hnopanic : forall nd, f nd <> EngP2.PanicR _ _.
+(* no panic / overflow outcome on the subproblems the search generates: P is any predicate that holds of the root and is inherited by
+   children (instantiated with well-formedness, for which C10 proves the absence of panic sites) *)
+Variable P : node -> Prop.
+Hypothesis P_root : P root.
+Hypothesis P_child : forall n cs s c, P n -> f n = EngP2.Infeas _ _ cs s -> In c cs -> P c.
+Hypothesis Hnopanic : forall nd, P nd -> f nd <> EngP2.PanicR _ _.
 Variables (smin smax : Z).
 Hypothesis Hrange : forall t, (value t <= smax)%Z.
 
@@ -50,7 +54,7 @@ Theorem C02_partial_noroom k st :
   forall t : target, EngP2.best node assignment st <> None /\ (score_of courses parts (t_a t) <= EngP2.bscore node assignment st)%Z.
 Proof.
   intros R Hk Hall t.
-  refine (EngP2.engine_complete node assignment f root smin smax target value covers (fun _ => True) I (fun _ _ _ _ _ _ _ => I) _ _ _ _ _ (fun nd _ => Hnopanic nd) k st R Hk Hall t).
+  refine (EngP2.engine_complete node assignment f root smin smax target value covers P P_root P_child _ _ _ _ _ Hnopanic k st R Hk Hall t).
   - (* root covers everything *)
     intros t0. constructor; cbn; auto; [intros c H; discriminate|intros c []|constructor].
   - (* "no solution" nodes cover nothing *)
